@@ -270,6 +270,11 @@ def run(ctx):
             kind = "pyro" if name.startswith("Pyro5") else "builtin"
             jobs.append({"ser": ser, "ck": "reraise", "spec": {"cls": name, "args": ["kept", si], "attrs": {"code": si}, "unser": False}, "kind": kind,
                          "carriable": True, "a": "str_int", "t": "one_int", "raised_args": ["kept", si]})
+        # custom attributes with names the library uses itself on its own errors
+        for ck in ("call", "getattr", "stream", "batch"):
+            jobs.append({"ser": ser, "ck": ck, "spec": {"cls": "ValueError", "args": ["named like the library's own"], "unser": False,
+                                                         "attrs": {"pyroMsg": "mine", "partialData": "mine too", "code": si}},
+                         "kind": "builtin", "carriable": True, "a": "one_str", "t": "library_names", "raised_args": ["named like the library's own"]})
         # a proxy that is told to retry: the errors it retries on are raised by the remote method itself here
         for name in ("Pyro5.errors.TimeoutError", "Pyro5.errors.ConnectionClosedError", "Pyro5.errors.CommunicationError", "ValueError"):
             for retries in (1, 2):
